@@ -153,6 +153,8 @@ func (tg *TCPGroup) worker() {
 			tg.acceptCh <- c
 		})
 		if err != nil {
+			// the group has been closed meanwhile: nobody will take this connection
+			c.Close()
 			return
 		}
 	}
